@@ -31,6 +31,7 @@ fn run_prop(id: &str, ctx: &Ctx) -> Option<fw::Report> {
     Some(match id {
         "C19" => props::c19::run(ctx),
         "C14" => props::c14::run(ctx),
+        #[cfg(feature = "hooks")]
         "C17" => props::c17::run(ctx),
         "C13" => props::c13::run(ctx),
         "C18" => props::c18::run(ctx),
@@ -43,6 +44,7 @@ fn run_prop(id: &str, ctx: &Ctx) -> Option<fw::Report> {
         "C08" => props::c08::run(ctx),
         "C09" => props::c09::run(ctx),
         "C10" => props::c10::run(ctx),
+        #[cfg(feature = "hooks")]
         "C07" => props::c07::run(ctx),
         "C11" => props::c11::run(ctx),
         "C12" => props::c12::run(ctx),
@@ -56,6 +58,7 @@ fn replay_prop(id: &str, ctx: &Ctx, job: &serde_json::Value) -> Option<stats::St
     match id {
         "C19" => props::c19::replay(ctx, job),
         "C14" => props::c14::replay(ctx, job),
+        #[cfg(feature = "hooks")]
         "C17" => props::c17::replay(ctx, job),
         "C13" => props::c13::replay(ctx, job),
         "C18" => props::c18::replay(ctx, job),
@@ -68,6 +71,7 @@ fn replay_prop(id: &str, ctx: &Ctx, job: &serde_json::Value) -> Option<stats::St
         "C05" => props::c05::replay(ctx, job),
         "C09" => props::c09::replay(ctx, job),
         "C10" => props::c10::replay(ctx, job),
+        #[cfg(feature = "hooks")]
         "C07" => props::c07::replay(ctx, job),
         "C11" => props::c11::replay(ctx, job),
         "C12" => props::c12::replay(ctx, job),
